@@ -115,6 +115,17 @@ def run(tier):
             return True
         if fn.get("impl_trait") == "std::clone::Clone" and fn.get("impl_self_adt") == ARC + "CArcSome":
             return ns == {-1} and [s.kind for s in sites] == ["slot:clone_fn"]     # shape checked by B-clone-through-stored-fn
+        if [s.kind for s in sites] == ["manuallydrop_new"] and body.origin_operand(sites[0].term["args"][0]) == ("arg", 1) and fn["inputs"] and fn["inputs"][0].startswith((ARC + "CArc<", ARC + "CArcSome<")):
+            # a hand-over: the source handle is disarmed as a whole (ManuallyDrop) and its pointer and functions move into the new handle
+            moved = False
+            for i in sorted(body.live_blocks()):
+                for s_ in body.blocks[i]["s"]:
+                    if s_["k"] == "assign" and s_["r"]["k"] == "agg" and s_["r"].get("adt") in (ARC + "CArc", ARC + "CArcSome"):
+                        ops = dict(zip(s_["r"]["fields"], [body.origin_operand(o) for o in s_["r"]["ops"]]))
+                        moved = all(mir.contains(ops[k], lambda x: mir.peel_place(x)[0] == "field" and mir.peel_place(x)[-1] == k and mir.peel(mir.peel_place(x)[1]) == ("arg", 1))
+                                    for k in ("instance", "drop_fn"))
+            ck.ob("L5-transfer-disarms-source", key + "/whole-source", moved, "%s wraps its source handle in ManuallyDrop but does not move the source's own instance and drop_fn into the handle it builds" % p)
+            return True
         return False
 
     n_sites, summ = c06.classify_library(ck, f, "cglue-lib", ("/arc.rs",), "cglue", extra_ok=extra_ok)
@@ -172,7 +183,7 @@ def run(tier):
                 ck.ob("L5-transfer-disarms-source", "cglue/%s/%s" % (p, s["r"]["adt"].split("::")[-1]), took or from_taken_value,
                       "%s builds a handle whose drop_fn is %s: the source keeps its own drop function and both will release the reference" % (p, mir.fmt(d)[:160]),
                       sample={"fn": p, "drop_fn": mir.fmt(d)[:100]})
-    ck.floor("handle-to-handle transfers", n_tr, 3)
+    ck.floor("handle-to-handle transfers", n_tr, 2)
     # L5b: a new handle whose `instance` is copied out of another handle value X (not obtained by Option::take and not a fresh
     # clone) shares X's strong reference: X must be disarmed (its drop_fn/instance taken, or X forgotten) before X is dropped.
     HANDLE_TYS = ("cglue::arc::CArc<", "cglue::arc::CArcSome<")
@@ -225,6 +236,22 @@ def run(tier):
     if ck.require(tk is not None, "CArc::take"):
         ret = mir.deepstrip(mir.Body(tk).origin_local(0))
         ok = ret[0] == "agg" and all(o[0] == "call" and o[1].endswith("Option::<T>::take") and forward.leafify(o[2][0]) == ("field", ("arg", 1), n) for n, o in zip(ret[3], ret[4]))
+        if not ok:
+            # semantic form: afterwards `*self` is the empty value and what is returned is exactly what `*self` held (mem::take, mem::replace ...)
+            from lib import sem
+            allf = {x["path"]: x for x in f.fns("cglue-lib")}
+            ev = sem.Evaluator(allf, {}, inline=lambda p: p.startswith(("cglue::", "<cglue::")))
+            me = ("sym", "self")
+            outs = ev.run(tk, [me])
+            if len(outs) == 1 and outs[0].kind == "ret":
+                o = outs[0]
+                after = ev._read(o.state, ("ext", me), ())
+                a = sem.strip(after)
+                r = sem.strip(o.ret)
+                names = ("instance", "clone_fn", "drop_fn")
+                emptied = a[0] == "agg" and len(a[4]) == 3 and all(sem.variant_of(x) == "None" for x in a[4])
+                old = r == me or (r[0] == "agg" and len(r[4]) == 3 and all(sem.strip(x) == ("fld", me, i, n) for i, (n, x) in enumerate(zip(names, r[4]))))
+                ok = emptied and old and not [e for e in o.effects if e[0] in ("call", "icall", "drop")]
         ck.ob("L5-take-empties-source", "cglue/CArc::take", ok, "CArc::take must Option::take each of its three fields: %s" % mir.fmt(ret)[:200])
     # into_arc: pointer read before forgetting self; net 0 already classified
     ia = fns.get(ARC + "CArcSome::<T>::into_arc")
